@@ -463,7 +463,16 @@ def run(ctx):
         for r in res:
             if 'error' in r:
                 raise runner.HarnessError(r['error'])
+            # a state in which the invariant is broken is an error state:
+            # reported once, where it first appears, and not expanded (all
+            # its successors would repeat the same inconsistency)
+            broken = {h2 for h2, _k, _d in r['viols']}
+            counts['error-states-not-expanded'] += len(broken)
             for h2, kind, key in r['succ']:
+                if h2 in broken:
+                    trans += 1
+                    counts[kind] += 1
+                    continue
                 trans += 1
                 counts[kind] += 1
                 if kind == 'ok' and key not in seen:
